@@ -59,12 +59,33 @@ CLAIMED["C13"] = {
     "design_ref": "DESIGN.md §5 C13",
 }
 
+CLAIMED["C01"] = {
+    "text": "The lowering of expressions is proved arm by arm against ONE general contract of Exp::linearize (Verus, structural induction: recursive calls are used through the same contract): "
+            "the lowering context only grows; at every assignment (all reals) that satisfies what the grown context demands (queued constraints, declared domains, derived range box) the returned linear form "
+            "relaxes the source value in the direction the requirement allows (=, >= or <=). Proved arms: Number, Variable, Add, Sub, Mul, Div, unary minus and Abs (sign-known shortcuts, one-sided rows, exact big-M pair). "
+            "For Abs the emitted rows are also proved complete: for every value of the operand inside its derived range the intended auxiliary values satisfy all rows (a too-small big-M constant fails this). "
+            "Supporting contracts proved on the real code: requirement reversal / scaling law, the linear-form algebra over the IndexMap view, expression rebuilding, queueing a constraint / declaring an auxiliary. "
+            "NOT decided and listed in the evidence as assumed arms: min/max selection, logic reification and assertion lowering, the model-level constraint loop and domain publication, the witness threading through nested auxiliaries, termination.",
+    "note": "Trusted: prelude/f64_layer.rs (floats as exact extended reals), prelude/smap.rs (IndexMap<String,_> view), prelude/std_stubs.rs. Assumed contract: BoundsAnalyzer::bounds_of (C07 forward enclosure, unit U07.fwd not proved yet). "
+            "Rules: format! abstracted to opaque strings (R6), auxiliary counters abstracted (R21), masked arms end in a diverging stub.",
+    "technique": "Verus contracts woven into Exp::linearize and its helpers extracted from linearizer.rs on every run; arm masking; ghost semantics oracle spec/semantics.rs",
+    "design_ref": "DESIGN.md §5 C01",
+}
+CLAIMED["C02"] = {
+    "text": "Same units as C01: the general contract's relaxation clause is exactly the objective statement per sub-expression (PreferLower: the linear value can only exceed the source value, so minimising it reaches the source value; "
+            "symmetric for PreferHigher; equality for Exact), proved for the affine arms and Abs, together with the requirement reversal law through subtraction, negation and negative scaling and the linear-form algebra "
+            "(constant offset carried through merge/scale). The choice of the requirement from the optimisation direction and the offset hand-over in Linearizer::linearize are NOT yet under contract (listed as not decided).",
+    "note": "As C01. Not decided: objective_requirement selection (linearizer.rs 1555-1559), objective offset extraction (1636-1645), min/max and logic arms.",
+    "technique": "Verus contracts (relaxes(requirement, linear value, source value)) on Exp::linearize arms and ValueRequirement::{reversed, through_scale}",
+    "design_ref": "DESIGN.md §5 C02",
+}
+
 NOT_APPLICABLE = {
     "C03": "quantifies over source texts through the pest-generated parser and an external MILP search; every in-repo step that can carry a contract is covered by C01/C02/C04/C05; no further function exists to attach an obligation to",
     "C06": "relates two parses; the expansion engine works on parser IL with dyn Fn callbacks, scope frames and evaluated iterables that Verus does not accept and Kani cannot execute; its specification would be a formal semantics of the whole language",
     "C09": "the operator table is data handed to pest's PrattParser and tokens come from macro-generated grammar code; neither verifier can take that code, and assuming the library implements precedence climbing would assume the property",
     "C17": "the export is text read by an independent reader; a contract would need a formal LP-format reader and a string theory for format!/push_str output; Kani cannot execute float formatting",
     "C20": "sensitivities are computed inside clarabel/good_lp; rooc only forwards them by name, so no contract on repository code decides the sign convention",
-    "C01": PENDING, "C02": PENDING, "C04": PENDING, "C05": PENDING, "C08": PENDING, "C10": PENDING, "C11": PENDING, "C12": PENDING,
+    "C04": PENDING, "C05": PENDING, "C08": PENDING, "C10": PENDING, "C11": PENDING, "C12": PENDING,
      "C15": PENDING, "C16": PENDING, 
 }
